@@ -346,4 +346,90 @@ theorem parked_reader_scenario_both_versions :
     (parkRun true).exc = some .transferEncoding ∧ (step (parkRun true) (.reqRead 0)).2 = .err .transferEncoding := by
   decide +kernel
 
+/-! ## a reader that stays parked: `read(n)`, `readline()`, server-side close -/
+
+/-- **`read(n)` / `readany()` never return "nothing" in the middle of a body.** A kept coroutine
+that gets as far as `_read_nowait` had a non-empty buffer or was at end-of-body — a wake-up
+without data (end of an HTTP chunk whose last bytes decode to nothing) parks it again. -/
+theorem read_returns_only_with_data_or_eof {c : Codec} (w w' : World c) (n : Option Nat) (d : Bytes)
+    (h : parkedRead w n = (w', .data d)) (hb : w.buf = []) : w.eof = true := by
+  simp only [parkedRead] at h
+  split at h
+  · rename_i r hr
+    simp only [resumeGate] at hr
+    repeat' split at hr
+    all_goals first | (injection hr with hr; subst hr; simp at h) | cases hr
+  · have hb' : ∀ k, (setChunk w k).buf = [] ∧ (setChunk w k).eof = w.eof := by
+      intro k; simp only [setChunk]; split <;> simp [hb]
+    cases n with
+    | none =>
+      simp only [hb, List.isEmpty_nil, Bool.true_and] at h
+      split at h
+      · simp [parkOrFail] at h; split at h <;> simp at h
+      · rename_i hne; simpa using hne
+    | some k =>
+      simp only [(hb' k).1, (hb' k).2, List.isEmpty_nil, Bool.true_and] at h
+      split at h
+      · simp [parkOrFail] at h; split at h <;> simp at h
+      · rename_i hne; simpa using hne
+
+/-- **One `readline()` holds at most `max_size` bytes** (`max_size` = the reader's high-water mark
+unless given): whatever refills the reader re-entrantly while buffers are taken — a compressed
+body whose input has already arrived, any ratio — the line collected so far is checked after
+every buffer, so the loop either has raised `LineTooLong` or holds at most `max_size` bytes. -/
+theorem readline_collects_at_most_max_size {c : Codec} :
+    ∀ (fuel m : Nat) (w : World c), w.lineAcc.length ≤ m → (lineInner fuel m w).2 ≠ .tooLong →
+      (lineInner fuel m w).1.lineAcc.length ≤ m := by
+  intro fuel
+  induction fuel with
+  | zero => intro m w h _; simpa [lineInner] using h
+  | succ f ih =>
+    intro m w h hne
+    simp only [lineInner] at hne ⊢
+    by_cases hb : w.buf.isEmpty = true
+    · simp only [hb, ↓reduceIte]; exact h
+    · simp only [hb, Bool.false_eq_true, ↓reduceIte] at hne ⊢
+      generalize lineTake w = W at hne ⊢
+      by_cases hgt : W.lineAcc.length > m
+      · simp [hgt] at hne
+      · simp only [hgt, ↓reduceIte] at hne ⊢
+        by_cases hf : lineFound w = true
+        · simp only [hf, ↓reduceIte]; omega
+        · simp only [hf, Bool.false_eq_true, ↓reduceIte] at hne ⊢
+          exact ih _ _ (by omega) hne
+
+/-- the line a fresh `readline()` returns is at most `high_water` bytes long -/
+theorem readline_result_bounded {c : Codec} (w w' : World c) (d : Bytes)
+    (hp : w.reqParked = false) (h : parkedLine w = (w', .data d)) : d.length ≤ w.high := by
+  simp only [parkedLine] at h
+  split at h
+  · rename_i r hr
+    simp only [resumeGate, hp] at hr
+    repeat' split at hr
+    all_goals first | (injection hr with hr; subst hr; simp at h) | cases hr
+  · have hs : lineStart w = { w with lineMax := w.high, lineAcc := [] } := by simp [lineStart, hp]
+    rw [hs] at h
+    have key := readline_collects_at_most_max_size (w.high + 2) w.high { w with lineMax := w.high, lineAcc := [] } (by simp)
+    generalize lineInner (w.high + 2) w.high { w with lineMax := w.high, lineAcc := [] } = r at h key
+    obtain ⟨w1, res⟩ := r
+    cases res with
+    | tooLong => simp [lineFinish] at h
+    | found =>
+      simp [lineFinish] at h key
+      rw [← h.2]; exact key
+    | more =>
+      simp only [lineFinish] at h
+      simp at key
+      split at h
+      · simp at h; rw [← h.2]; exact key
+      · simp [parkOrFail] at h; split at h <;> simp at h
+
+/-- **Server-side close fails the request payload** (`RequestHandler.connection_lost`, clean FIN
+included): the payload carries `ConnectionResetError`, and a handler parked in `read()` on the
+truncated body is woken with it instead of waiting forever. -/
+theorem server_close_fails_parked_handler {c : Codec} (w : World c) (cms : Nat)
+    (hs : w.reqStarted = true) (hp : w.reqParked = true) (hw : w.waiter = true) :
+    (connectionLostServer w).exc = some .connReset ∧ (reqRead (connectionLostServer w) cms).2 = .err .connReset := by
+  simp [connectionLostServer, setExc, hw, reqRead, hs, hp]
+
 end Aio.C09
